@@ -131,6 +131,8 @@ class VerTheory:
     def external(self, ex, mod, name):
         if mod.startswith("packaging") and name == "Version":
             return _VersionCtor()
+        if mod.startswith("packaging") and name == "SpecifierSet":
+            return _SpecifierSetCtor()
         return None
 
     def opt_unwrap(self, ex, o):
@@ -176,7 +178,7 @@ class VerTheory:
             return VersionText(x.term)
         if z3.is_expr(x) and z3.is_int(x):
             return IntText(x)
-        if isinstance(x, (VersionText, JoinDots, SpecText, EpochText, UnionText, RelText, IntText, SpecStr)):
+        if isinstance(x, (VersionText, JoinDots, SpecText, EpochText, UnionText, RelText, IntText, SpecStr, PaddedText)):
             return x
         if isinstance(x, PkgSpec):
             return SpecStr(x)
@@ -188,6 +190,11 @@ class VerTheory:
             return ""
         if all(isinstance(p, str) for p in parts):
             return "".join(parts)
+        if len(parts) == 2 and isinstance(parts[0], (VersionText, PaddedText)) and parts[1] == ".0":
+            base = parts[0]
+            return PaddedText(base.term, (base.zeros if isinstance(base, PaddedText) else 0) + 1)
+        if len(parts) == 2 and isinstance(parts[0], (RelText, JunkText)) and getattr(parts[0], "wild", True) and isinstance(parts[1], str):
+            return JunkText(parts)        # "1.2.*" + ".0": text that is no version / wildcard any more
         # "<int>!" -> epoch prefix
         if len(parts) == 2 and isinstance(parts[0], IntText) and parts[1] == "!":
             return EpochText(parts[0].term)
@@ -245,6 +252,13 @@ class VerTheory:
         return NotImplemented
 
     def method_builtin(self, ex, recv, name, args, kw):
+        if name == "count" and args == ["."] and isinstance(recv, (VersionText, PaddedText)):
+            t = recv.term
+            if ex.branch(z3.Not(suffix_free(t))):
+                raise OutsideSubset("dot count of a version text with pre/post/dev segments")
+            return z3.simplify(V.n(t) - 1 + (recv.zeros if isinstance(recv, PaddedText) else 0))
+        if name == "count" and args == ["."] and isinstance(recv, RelText):
+            return recv.ints.ints.n - 1 + (1 if recv.wild else 0)
         if name == "join" and recv == "||" and args and isinstance(args[0], list):
             return UnionText(list(args[0]))
         if name == "join" and recv == "." and args and isinstance(args[0], MapStr):
@@ -263,7 +277,7 @@ class VerTheory:
         return None
 
     def contains_other(self, ex, container, item):
-        if isinstance(container, (VersionText, RelText)) and item == "*":
+        if isinstance(container, (VersionText, RelText, PaddedText)) and item == "*":
             return isinstance(container, RelText) and container.wild
         return None
 
@@ -275,12 +289,39 @@ class VerTheory:
     def call_other(self, ex, f, args, kw):
         if isinstance(f, _VersionCtor):
             return self.version_from_text(ex, args[0])
+        if isinstance(f, _SpecifierSetCtor):
+            return self.specifierset_from_text(ex, args[0])
         return NotImplemented
+
+    def specifierset_from_text(self, ex, text):
+        """A-PKG-PARSE: SpecifierSet(text) holds exactly the comma-separated clauses of the rendered text"""
+        if isinstance(text, str) and text == "":
+            return []
+        if isinstance(text, SpecText):
+            out = []
+            for op, payload in text.clauses:
+                if op in ("!=*", "==*"):
+                    ep, jd = payload
+                    out.append(PkgSpec(op[:-1], RelText(ep, jd, True)))
+                else:
+                    out.append(PkgSpec(op, VersionText(payload)))
+            return out
+        if isinstance(text, SpecStr):
+            return [text.spec]
+        raise OutsideSubset(f"SpecifierSet({text!r})")
 
     def version_from_text(self, ex, text):
         """A-PKG-PARSE: Version(str(v)) == v; Version('<E>!' + '.'.join(ints)) has epoch E, that release, no suffix"""
         if isinstance(text, VersionText):
             return AbsObj(text.term, self)
+        if isinstance(text, PaddedText):
+            # A-PKG-PARSE + A-VER: appending ".0" to the text of a suffix-free version gives the same version with a longer release
+            v = text.term
+            t = self.sym_version("padded")
+            i = z3.Int(fresh_name("pi"))
+            ex.assume(z3.Implies(suffix_free(v), z3.And(suffix_free(t), V.sfx(t) == 0, V.epoch(t) == V.epoch(v), V.n(t) == V.n(v) + text.zeros, V.ord(t) == V.ord(v),
+                                                    z3.ForAll([i], z3.Implies(i >= 0, pad(V.rel(t), V.n(t), i) == pad(V.rel(v), V.n(v), i))))))
+            return AbsObj(t, self)
         if isinstance(text, JoinDots):
             text = RelText(None, text, False)
         if isinstance(text, RelText) and not text.wild:
@@ -291,6 +332,20 @@ class VerTheory:
                              z3.ForAll([i], z3.Implies(z3.And(0 <= i, i < ints.n), z3.Select(V.rel(t), i) == z3.Select(ints.arr, i)))))
             return AbsObj(t, self)
         raise OutsideSubset(f"Version({text!r})")
+
+
+class JunkText:
+    """text that neither packaging nor dep-logic reads as a version or a wildcard (e.g. "1.*" + ".0")"""
+
+    def __init__(self, parts):
+        self.parts = parts
+
+
+class PaddedText:
+    """str(version) + k times ".0" """
+
+    def __init__(self, term, zeros):
+        self.term, self.zeros = term, zeros
 
 
 class PkgSpec:
@@ -320,4 +375,8 @@ class RelText:
 
 
 class _VersionCtor:
+    pass
+
+
+class _SpecifierSetCtor:
     pass
